@@ -553,7 +553,9 @@ def subst_markers(ev, table):
         elif e[0] in ("start", "startend"):
             out.append([e[0], e[1], [[a[0], rep(a[1])] for a in e[2]]])
         elif e[0] == "comment":
-            out.append(["comment", rep(e[1])])
+            # html.parser hands comments over raw: unescape the neutral text first (un-markered request text such
+            # as PATH_INFO may need it), then put the raw caller text in
+            out.append(["comment", rep(html.unescape(e[1]))])
         else:
             out.append(e)
     return out
